@@ -463,6 +463,17 @@ pub fn sig_pattern(base: u64, k: u64, pattern: u8, seed: u64) -> BigUint {
     let mut r = crate::gen::SplitMix(seed);
     let v = match pattern % 9 {
         0 => lo.clone(),                                    // 1 0...0
+        2 if seed % 3 != 2 => {
+            // just below / just above one half of B^k: (B/2-1)(B-1)..(B-1) resp. (B/2)0..01 in an even
+            // base, ((B-1)/2) repeated (+1) in an odd base — near-ties when this operand becomes the
+            // discarded low part
+            let below = if base % 2 == 0 { &lo * BigUint::from(base / 2) - BigUint::one() } else { (&hi - BigUint::one()) / BigUint::from(2u8) };
+            if seed % 3 == 0 {
+                below
+            } else {
+                below + BigUint::from(if base % 2 == 0 { 2u8 } else { 1u8 })
+            }
+        }
         1 | 2 => {
             // random k digits
             let words = (hi.bits() / 64 + 2) as usize;
